@@ -1771,3 +1771,13 @@ package resolve
 // variable up by its canonical name has to go through Context.VariablesView(), which applies the renaming; the raw
 // Variables are read only by the accessor itself and by the functions that copy or release the context.
 //@ decl readers Context.Variables by Context.VariablesView, Context.clone, Context.Free
+
+// the view translates the canonical name FIRST and looks only the translated name up: a client variable that happens
+// to carry the canonical name of a different variable must not be read in its place
+//@ func VariablesView.Get
+//@   ghost var g_n int = 0
+//@   at call Value.Get: assert {the.first.lookup.uses.the.clients.name.of.the.variable.whenever.a.renaming.exists} g_n == 0 ==> len(arg1) == 1 && arg1[0] == ite(has(v.remap, path[0]), v.remap[path[0]], path[0]) && arg0 == v.variables
+//@   at call Value.Get: ghost g_n = g_n + 1
+//@   ensures {no.variables.no.value} v.variables == nil || len(path) == 0 ==> result == nil
+//@   modifies *
+//@   safety no-bounds
